@@ -2,7 +2,7 @@
 // One request line = one public call; one response line = its outcome.
 // The driver contains no oracle logic: it reports what the library returned.
 //
-// Build flavours (exactly one): fl-sync | fl-asyncstd | fl-tokio.
+// Build flavours (exactly one): fl-sync | fl-plain (blocking API without mmap) | fl-asyncstd | fl-tokio.
 #![allow(clippy::all)]
 #![allow(unexpected_cfgs)]
 
@@ -21,7 +21,7 @@ use futures::io::{AsyncReadExt, AsyncWriteExt};
 #[cfg(feature = "fl-tokio")]
 use tokio::io::{AsyncReadExt, AsyncWriteExt};
 
-#[cfg(feature = "fl-sync")]
+#[cfg(feature = "sync-code")]
 const FLAVOUR: &str = "sync";
 #[cfg(feature = "fl-asyncstd")]
 const FLAVOUR: &str = "asyncstd";
@@ -92,11 +92,11 @@ enum Handle {
     SyncWriter(cacache::SyncWriter),
     SyncReader(cacache::SyncReader),
     SyncLinker(cacache::SyncToLinker),
-    #[cfg(not(feature = "fl-sync"))]
+    #[cfg(not(feature = "sync-code"))]
     Writer(cacache::Writer),
-    #[cfg(not(feature = "fl-sync"))]
+    #[cfg(not(feature = "sync-code"))]
     Reader(cacache::Reader),
-    #[cfg(not(feature = "fl-sync"))]
+    #[cfg(not(feature = "sync-code"))]
     Linker(cacache::ToLinker),
 }
 
@@ -211,6 +211,11 @@ fn remove_opts(req: &Value, fully: bool) -> cacache::RemoveOpts {
     o.remove_fully(fully)
 }
 
+fn path_of_hex(h: &str) -> PathBuf {
+    use std::os::unix::ffi::OsStringExt;
+    PathBuf::from(std::ffi::OsString::from_vec(hex::decode(h).expect("driver: bad path hex")))
+}
+
 fn raw_io(e: &std::io::Error) -> Value {
     json!({"variant":"RawIo","io":io_err_val(e)})
 }
@@ -287,6 +292,10 @@ fn apply_opts(o: WriteOpts, v: Option<&Value>) -> WriteOpts {
             for _ in 0..n {
                 val = if obj { json!({ "a": val }) } else { json!([val]) };
             }
+            // {"note": s}: the nested value sits behind a string, as {"note": s, "tree": <nested>}
+            if let Some(note) = m.get("note").and_then(|x| x.as_str()) {
+                val = json!({ "note": note, "tree": val });
+            }
             o = o.metadata(val);
         }
     }
@@ -304,13 +313,13 @@ struct Drv {
     next: u64,
 }
 
-#[cfg(feature = "fl-sync")]
+#[cfg(feature = "sync-code")]
 macro_rules! asy {
     ($e:expr) => {
         Err(json!({"variant":"Driver","text":"async entry point not available in sync flavour"}))
     };
 }
-#[cfg(not(feature = "fl-sync"))]
+#[cfg(not(feature = "sync-code"))]
 macro_rules! asy {
     ($e:expr) => {
         $e
@@ -326,7 +335,11 @@ impl Drv {
 
     fn call(&mut self, req: &Value) -> R {
         let op = s(req, "op");
-        let cache = PathBuf::from(req.get("cache").and_then(|x| x.as_str()).unwrap_or(""));
+        // ("cache_hex" / "dir_hex": a path that is not valid UTF-8 cannot travel as a JSON string)
+        let cache = match req.get("cache_hex").and_then(|x| x.as_str()) {
+            Some(h) => path_of_hex(h),
+            None => PathBuf::from(req.get("cache").and_then(|x| x.as_str()).unwrap_or("")),
+        };
         let isync = op.ends_with("_sync") || req.get("sync").and_then(|x| x.as_bool()).unwrap_or(false);
         let _ = isync;
         match op {
@@ -534,7 +547,7 @@ impl Drv {
                             w.write(&data).map(|n| json!(n)).map_err(|e| raw_io(&e))
                         }
                     }
-                    #[cfg(not(feature = "fl-sync"))]
+                    #[cfg(not(feature = "sync-code"))]
                     Some(Handle::Writer(w)) => {
                         if all {
                             block_on(w.write_all(&data)).map(|_| json!(data.len())).map_err(|e| raw_io(&e))
@@ -552,7 +565,7 @@ impl Drv {
                 let slices: Vec<std::io::IoSlice> = parts.iter().map(|p| std::io::IoSlice::new(p)).collect();
                 match self.handles.get_mut(&h) {
                     Some(Handle::SyncWriter(w)) => w.write_vectored(&slices).map(|n| json!(n)).map_err(|e| raw_io(&e)),
-                    #[cfg(not(feature = "fl-sync"))]
+                    #[cfg(not(feature = "sync-code"))]
                     Some(Handle::Writer(w)) => block_on(w.write_vectored(&slices)).map(|n| json!(n)).map_err(|e| raw_io(&e)),
                     _ => Err(json!({"variant":"Driver","text":"no such writer"})),
                 }
@@ -576,7 +589,7 @@ impl Drv {
                 let h = req["h"].as_u64().unwrap();
                 match self.handles.get_mut(&h) {
                     Some(Handle::SyncWriter(w)) => w.flush().map(|_| Value::Null).map_err(|e| raw_io(&e)),
-                    #[cfg(not(feature = "fl-sync"))]
+                    #[cfg(not(feature = "sync-code"))]
                     Some(Handle::Writer(w)) => block_on(w.flush()).map(|_| Value::Null).map_err(|e| raw_io(&e)),
                     _ => Err(json!({"variant":"Driver","text":"no such writer"})),
                 }
@@ -597,7 +610,7 @@ impl Drv {
                 let h = req["h"].as_u64().unwrap();
                 let data = get_data(&req["data"]);
                 match self.handles.remove(&h) {
-                    #[cfg(not(feature = "fl-sync"))]
+                    #[cfg(not(feature = "sync-code"))]
                     Some(Handle::Writer(mut w)) => {
                         let ready = block_on(async {
                             let r = {
@@ -624,7 +637,7 @@ impl Drv {
                 let h = req["h"].as_u64().unwrap();
                 let data = get_data(&req["data"]);
                 match self.handles.get_mut(&h) {
-                    #[cfg(not(feature = "fl-sync"))]
+                    #[cfg(not(feature = "sync-code"))]
                     Some(Handle::Writer(w)) => {
                         let r: Option<std::io::Result<usize>> = block_on(async {
                             let fut = w.write(&data);
@@ -677,7 +690,7 @@ impl Drv {
                 let h = req["h"].as_u64().unwrap();
                 match self.handles.remove(&h) {
                     Some(Handle::SyncWriter(w)) => lift(w.commit(), |i| json!(i.to_string())),
-                    #[cfg(not(feature = "fl-sync"))]
+                    #[cfg(not(feature = "sync-code"))]
                     Some(Handle::Writer(w)) => lift(block_on(w.commit()), |i| json!(i.to_string())),
                     _ => Err(json!({"variant":"Driver","text":"no such writer"})),
                 }
@@ -719,19 +732,45 @@ impl Drv {
                     })
                 }
             }
-            // one read() call with a buffer of n bytes
+            // one read() call with a buffer of n bytes - or, with "split": [a, b, ..], one
+            // read_vectored() call on that buffer cut into pieces of those lengths (some may be 0)
             "r_read" | "l_read" => {
                 let h = req["h"].as_u64().unwrap();
                 let n = req["n"].as_u64().unwrap() as usize;
                 let mut buf = vec![0u8; n];
-                let r = match self.handles.get_mut(&h) {
-                    Some(Handle::SyncReader(x)) => x.read(&mut buf),
-                    Some(Handle::SyncLinker(x)) => x.read(&mut buf),
-                    #[cfg(not(feature = "fl-sync"))]
-                    Some(Handle::Reader(x)) => block_on(x.read(&mut buf)),
-                    #[cfg(not(feature = "fl-sync"))]
-                    Some(Handle::Linker(x)) => block_on(x.read(&mut buf)),
-                    _ => return Err(json!({"variant":"Driver","text":"no such reader"})),
+                let split: Vec<usize> = req
+                    .get("split")
+                    .and_then(|x| x.as_array())
+                    .map(|a| a.iter().map(|v| v.as_u64().unwrap_or(0) as usize).collect())
+                    .unwrap_or_default();
+                let r = if split.is_empty() {
+                    match self.handles.get_mut(&h) {
+                        Some(Handle::SyncReader(x)) => x.read(&mut buf),
+                        Some(Handle::SyncLinker(x)) => x.read(&mut buf),
+                        #[cfg(not(feature = "sync-code"))]
+                        Some(Handle::Reader(x)) => block_on(x.read(&mut buf)),
+                        #[cfg(not(feature = "sync-code"))]
+                        Some(Handle::Linker(x)) => block_on(x.read(&mut buf)),
+                        _ => return Err(json!({"variant":"Driver","text":"no such reader"})),
+                    }
+                } else {
+                    let mut rest: &mut [u8] = &mut buf;
+                    let mut parts: Vec<std::io::IoSliceMut> = Vec::new();
+                    for len in &split {
+                        let m = (*len).min(rest.len());
+                        let (a, b) = std::mem::take(&mut rest).split_at_mut(m);
+                        parts.push(std::io::IoSliceMut::new(a));
+                        rest = b;
+                    }
+                    match self.handles.get_mut(&h) {
+                        Some(Handle::SyncReader(x)) => x.read_vectored(&mut parts),
+                        Some(Handle::SyncLinker(x)) => x.read_vectored(&mut parts),
+                        #[cfg(feature = "fl-asyncstd")]
+                        Some(Handle::Reader(x)) => block_on(futures::AsyncReadExt::read_vectored(x, &mut parts)),
+                        #[cfg(feature = "fl-asyncstd")]
+                        Some(Handle::Linker(x)) => block_on(futures::AsyncReadExt::read_vectored(x, &mut parts)),
+                        _ => return Err(json!({"variant":"Driver","text":"no vectored read on this handle"})),
+                    }
                 };
                 r.map(|k| bytes_val(&buf[..k])).map_err(|e| raw_io(&e))
             }
@@ -746,9 +785,9 @@ impl Drv {
                     let r = match self.handles.get_mut(&h) {
                         Some(Handle::SyncReader(x)) => x.read(&mut buf),
                         Some(Handle::SyncLinker(x)) => x.read(&mut buf),
-                        #[cfg(not(feature = "fl-sync"))]
+                        #[cfg(not(feature = "sync-code"))]
                         Some(Handle::Reader(x)) => block_on(x.read(&mut buf)),
-                        #[cfg(not(feature = "fl-sync"))]
+                        #[cfg(not(feature = "sync-code"))]
                         Some(Handle::Linker(x)) => block_on(x.read(&mut buf)),
                         _ => return Err(json!({"variant":"Driver","text":"no such reader"})),
                     };
@@ -775,9 +814,9 @@ impl Drv {
                 let r = match self.handles.get_mut(&h) {
                     Some(Handle::SyncReader(x)) => x.read_to_end(&mut acc),
                     Some(Handle::SyncLinker(x)) => x.read_to_end(&mut acc),
-                    #[cfg(not(feature = "fl-sync"))]
+                    #[cfg(not(feature = "sync-code"))]
                     Some(Handle::Reader(x)) => block_on(x.read_to_end(&mut acc)),
-                    #[cfg(not(feature = "fl-sync"))]
+                    #[cfg(not(feature = "sync-code"))]
                     Some(Handle::Linker(x)) => block_on(x.read_to_end(&mut acc)),
                     _ => return Err(json!({"variant":"Driver","text":"no such reader"})),
                 };
@@ -824,7 +863,7 @@ impl Drv {
                 let mut buf = vec![0u8; n];
                 let r = match self.handles.get_mut(&h) {
                     Some(Handle::SyncReader(x)) => x.read_exact(&mut buf).map(|_| n),
-                    #[cfg(not(feature = "fl-sync"))]
+                    #[cfg(not(feature = "sync-code"))]
                     Some(Handle::Reader(x)) => block_on(x.read_exact(&mut buf)).map(|_| n),
                     _ => return Err(json!({"variant":"Driver","text":"no such reader"})),
                 };
@@ -834,7 +873,7 @@ impl Drv {
                 let h = req["h"].as_u64().unwrap();
                 match self.handles.remove(&h) {
                     Some(Handle::SyncReader(x)) => lift(x.check(), |a| json!(a.to_string())),
-                    #[cfg(not(feature = "fl-sync"))]
+                    #[cfg(not(feature = "sync-code"))]
                     Some(Handle::Reader(x)) => lift(x.check(), |a| json!(a.to_string())),
                     _ => Err(json!({"variant":"Driver","text":"no such reader"})),
                 }
@@ -876,14 +915,20 @@ impl Drv {
                 let h = req["h"].as_u64().unwrap();
                 match self.handles.remove(&h) {
                     Some(Handle::SyncLinker(x)) => lift(x.commit(), |i| json!(i.to_string())),
-                    #[cfg(not(feature = "fl-sync"))]
+                    #[cfg(not(feature = "sync-code"))]
                     Some(Handle::Linker(x)) => lift(block_on(x.commit()), |i| json!(i.to_string())),
                     _ => Err(json!({"variant":"Driver","text":"no such linker"})),
                 }
             }
 
             // ------------------------------------------------ misc
-            "chdir" => std::env::set_current_dir(s(req, "dir")).map(|_| Value::Null).map_err(|e| raw_io(&e)),
+            "chdir" => {
+                let d = match req.get("dir_hex").and_then(|x| x.as_str()) {
+                    Some(h) => path_of_hex(h),
+                    None => PathBuf::from(s(req, "dir")),
+                };
+                std::env::set_current_dir(d).map(|_| Value::Null).map_err(|e| raw_io(&e))
+            }
             // XXH3-128 of the given data, computed with the xxhash crate directly (not through
             // cacache): lets the orchestrator name xxh3 addresses without an own implementation
             "xxh3" => {
@@ -891,6 +936,8 @@ impl Drv {
                 Ok(json!(hex::encode(xxhash_rust::xxh3::xxh3_128(&d).to_be_bytes())))
             }
             "ping" => Ok(json!({"flavour": FLAVOUR, "pid": std::process::id()})),
+            // the process dies on the spot (no destructor runs): what it was doing stays as it is
+            "die" => std::process::abort(),
             "live_handles" => Ok(json!(self.handles.len())),
             _ => Err(json!({"variant":"Driver","text":format!("unknown op {op}")})),
         }
